@@ -201,6 +201,15 @@ func (fr *Frame) checkSites(cx *callCtx) {
 		if !patMatches(ss.Pattern, cx.name) {
 			continue
 		}
+		if ss.Ordinal > 0 {
+			// count matches of the pattern per (pattern) independently of the spec
+			if e.vc.dry == 0 {
+				e.sitePat[ss]++
+			}
+			if e.sitePat[ss] != ss.Ordinal {
+				continue
+			}
+		}
 		if e.vc.dry == 0 {
 			e.siteHits[ss]++
 		}
@@ -226,6 +235,9 @@ func (fr *Frame) checkSites(cx *callCtx) {
 			env.args = append(env.args, sval{t: a, typ: t})
 		}
 		n := e.siteHits[ss]
+		if ss.Ordinal > 0 {
+			n = ss.Ordinal
+		}
 		for k, c := range ss.Requires {
 			g := env.evalBool(c.Expr)
 			e.vc.oblige(top.oblName(fmt.Sprintf("site.%s.%d.%s", ss.Pattern, n, clauseID(c, k))), "site", cx.st.pc, g, c.Src)
@@ -253,7 +265,7 @@ func VerifyFunction(p *Program, cs *Contracts, fn *ssa.Function, con *Contract) 
 	for _, b := range fn.Blocks {
 		res.NInstr += len(b.Instrs)
 	}
-	e := &Engine{vc: vc, prog: p, cs: cs, compSort: map[string]string{}, maxDepth: 6, siteHits: map[*SiteSpec]int{}, usedPure: map[string]bool{}}
+	e := &Engine{vc: vc, prog: p, cs: cs, compSort: map[string]string{}, maxDepth: 6, siteHits: map[*SiteSpec]int{}, sitePat: map[*SiteSpec]int{}, usedPure: map[string]bool{}}
 	defer func() {
 		if r := recover(); r != nil {
 			switch r := r.(type) {
